@@ -19,6 +19,7 @@ fn dispatch(case: &Value) -> Value {
     match case["op"].as_str().unwrap_or("") {
         "gate" => gates::run_gate(case),
         "gate_sched" => gates::run_gate_sched(case),
+        "gate_big" => gates::run_gate_big(case),
         "opseq" => opseq::run_opseq(case),
         "pauli" => pauli::run_pauli(case),
         "pauli_exp" => pauli::run_pauli_exp(case),
@@ -30,6 +31,7 @@ fn dispatch(case: &Value) -> Value {
         "param" => param::run_param(case),
         "export" => export::run_export(case),
         "qft" => qft::run_qft(case),
+        "qft_big" => qft::run_qft_big(case),
         "sched" => sched(case),
         other => json!({"r": "harness_error", "e": format!("unknown op {}", other)}),
     }
